@@ -324,12 +324,14 @@ fn items(tier: Tier) -> &'static Vec<(Sc, u32)> {
             }
         }
         // server drop at every position, schedules explored around the drop
-        let b = if thorough { 2 } else { 1 };
         for drop_at in [DropAt::BeforeAnyConnection, DropAt::RacingWithConnect, DropAt::RequestQueued, DropAt::RequestHandedOut, DropAt::WorkersRetiring, DropAt::End] {
             for pre in [vec![], vec![Burst { n: 1, close: true, idle_ms: 0 }], vec![Burst { n: 6, close: true, idle_ms: 0 }], vec![Burst { n: 2, close: false, idle_ms: 0 }]] {
                 if drop_at == DropAt::WorkersRetiring && pre.iter().all(|x| x.n < 5) {
                     continue;
                 }
+                // two deviations only where the history before the drop is short
+                let small = pre.iter().map(|x| x.n).sum::<usize>() <= 1;
+                let b = if thorough { if small { 2 } else { 1 } } else if small { 1 } else { 0 };
                 v.push((Sc { bursts: pre, drop_at, burst_at_retirement: None }, b));
             }
         }
@@ -342,7 +344,7 @@ fn items(tier: Tier) -> &'static Vec<(Sc, u32)> {
                         drop_at: DropAt::End,
                         burst_at_retirement: Some(1),
                     },
-                    if thorough { 2 } else { 1 },
+                    if thorough && first <= 5 && n2 <= 2 { 2 } else { 1 },
                 ));
             }
         }
@@ -380,7 +382,7 @@ impl Check for C20 {
     }
     fn rule(&self, tier: Tier) -> String {
         format!(
-            "histories of 1..{} bursts of N in {:?} connections (each answered; closed or left open) followed by {:?} ms of virtual idleness, at the default schedule; server drop {{before any connection, racing with a connecting client, with a request queued but never received, with a request handed out and answered afterwards, while surplus workers are retiring, at the end}} after histories {{none, 1 closed, 6 closed, 2 open}} with all schedules of at most {} deviations (strict) around the drop; a burst of 1/2/5 arriving exactly when the surplus workers of a burst of 5/6/8 reach their 5 s idle timeout, same bound; {} scenarios; oracle: after the drop and quiescence a new connect is refused in every schedule, a handed-out request is still answered and its bytes reach the client, every burst is answered completely, threads alive after more than 5 s of idleness <= baseline + open connections; non-trivial = all",
+            "histories of 1..{} bursts of N in {:?} connections (each answered; closed or left open) followed by {:?} ms of virtual idleness, at the default schedule; server drop {{before any connection, racing with a connecting client, with a request queued but never received, with a request handed out and answered afterwards, while surplus workers are retiring, at the end}} after histories {{none, 1 closed, 6 closed, 2 open}} with all schedules of at most {} deviations (strict; one less after the longer histories) around the drop; a burst of 1/2/5 arriving exactly when the surplus workers of a burst of 5/6/8 reach their 5 s idle timeout, same bound; {} scenarios; oracle: after the drop and quiescence a new connect is refused in every schedule, a handed-out request is still answered and its bytes reach the client, every burst is answered completely, threads alive after more than 5 s of idleness <= baseline + open connections; non-trivial = all",
             if tier == Tier::Thorough { 3 } else { 2 }, if tier == Tier::Thorough { vec![1, 4, 5, 8] } else { vec![1, 5, 8] },
             if tier == Tier::Thorough { vec![0, 4900, 5100, 11000] } else { vec![0, 4900, 5100] }, if tier == Tier::Thorough { 2 } else { 1 }, items(tier).len()
         )
